@@ -18,6 +18,7 @@ import (
 	"strings"
 	"syscall"
 	"time"
+	"unsafe"
 )
 
 // The helper is recognised by its command line (not by its environment: a library that dropped the environment would
@@ -321,4 +322,53 @@ func KillAll(ps []Proc) {
 	for _, p := range ps {
 		_ = syscall.Kill(p.Pid, syscall.SIGKILL)
 	}
+}
+
+var fullMask [16]uintptr // the processors the process may use, read before anything is confined
+
+func init() {
+	_, _, _ = syscall.RawSyscall(syscall.SYS_SCHED_GETAFFINITY, 0, uintptr(len(fullMask)*8), uintptr(unsafe.Pointer(&fullMask[0])))
+}
+
+// Confine restricts every thread of the calling process (and so every process it starts from now on) to one
+// processor and returns the function that undoes it. With more runnable threads than that processor can serve, the
+// goroutines of the code under test wait for their turn as they would on an overloaded machine: schedules that are
+// otherwise seen once in a thousand runs become common.
+func Confine() (restore func()) {
+	old := fullMask
+	var one [16]uintptr
+	found := false
+	for i := range old {
+		for b := 0; b < 64 && !found; b++ {
+			if old[i]&(1<<b) != 0 {
+				one[i] = 1 << b
+				found = true
+			}
+		}
+	}
+	if !found {
+		return func() {}
+	}
+	// threads are born with the mask of the thread that creates them: go over the list until nothing new shows up
+	setAll := func(mask *[16]uintptr) {
+		seen := map[int]bool{}
+		for pass := 0; pass < 5; pass++ {
+			fresh := 0
+			es, _ := os.ReadDir("/proc/self/task")
+			for _, e := range es {
+				if tid, err := strconv.Atoi(e.Name()); err == nil {
+					if !seen[tid] {
+						fresh++
+						seen[tid] = true
+					}
+					_, _, _ = syscall.RawSyscall(syscall.SYS_SCHED_SETAFFINITY, uintptr(tid), uintptr(len(mask)*8), uintptr(unsafe.Pointer(&mask[0])))
+				}
+			}
+			if fresh == 0 {
+				break
+			}
+		}
+	}
+	setAll(&one)
+	return func() { setAll(&old) }
 }
